@@ -784,7 +784,7 @@ pub fn judge_for(monitor: &str, regime: Regime, extra: &serde_json::Value) -> (B
             let ps: Vec<crate::relational::Perturb> = serde_json::from_value(extra["perturb"].clone()).unwrap_or_default();
             (Box::new(move |evs: &[Ev]| crate::relational::c12_judge(evs, regime, &ps)), true)
         }
-        "omitted_seed_is_ones" | "seed_linearity" | "seed_linearity_presence" => {
+        "omitted_seed_is_ones" | "seed_linearity" | "seed_linearity_presence" | "seed_homogeneity" => {
             let case: Option<crate::relational::C17Case> = serde_json::from_value(extra["case"].clone()).ok();
             (
                 Box::new(move |evs: &[Ev]| match &case {
